@@ -1620,7 +1620,7 @@ def run_isolated(himpl, cases, wall=900, cpu=600, case_cpu=20):
     """run the cases in one process.  A case that does not return within `case_cpu` seconds of CPU time (watchdog inside the harness) is
     run once more ALONE with five times that budget (is_prim_root / order factor q^n-1 with a time-seeded Pollard/Lenstra: their running
     time is not a function of the input alone); only if it again does not return it is recorded as HANG = a failing input "does not
-    return".  A crash is recorded as CRASH for the case it stopped on.  After 3 hangs/crashes the rest is SKIPPED.  Wall-clock time-outs
+    return".  A crash is recorded as CRASH for the case it stopped on.  After 2 hangs/crashes the rest is SKIPPED.  Wall-clock time-outs
     and the outer batch CPU limit are time-outs of the tooling: unanswered cases are run once more, then recorded as TIMEOUT.
     SKIPPED and TIMEOUT are inconclusive, never a pass and never a failing input.  Returns (output lines, number of TIMEOUT cases)."""
     out = [None] * len(cases)
@@ -1644,7 +1644,8 @@ def run_isolated(himpl, cases, wall=900, cpu=600, case_cpu=20):
             continue
         k = rest[len(lines)]
         if st == "casecpu":
-            st2, l2 = run_proc(himpl, cases[k].line() + "\n", wall, 5 * case_cpu + 30, 5 * case_cpu)
+            mult = 5 if stops == 0 else 2          # the first "does not return" is confirmed with 5x the budget, later ones with 2x
+            st2, l2 = run_proc(himpl, cases[k].line() + "\n", wall, mult * case_cpu + 30, mult * case_cpu)
             l2 = [l for l in l2 if ok_line.search(l)]
             if l2:
                 out[k] = l2[0]
@@ -1655,12 +1656,12 @@ def run_isolated(himpl, cases, wall=900, cpu=600, case_cpu=20):
                 out[k] = "TIMEOUT"
                 rest = rest[len(lines) + 1:]
                 continue
-            out[k] = "HANG (no return within %d s of CPU time; reproduced when run alone with %d s)" % (case_cpu, 5 * case_cpu)
+            out[k] = "HANG (no return within %d s of CPU time; reproduced when run alone with %d s)" % (case_cpu, mult * case_cpu)
         else:
             out[k] = "CRASH %s" % st
         rest = rest[len(lines) + 1:]
         stops += 1
-        if stops >= 3:
+        if stops >= 2:
             for i in rest:
                 out[i] = "SKIPPED"
             break
